@@ -547,3 +547,69 @@ func init() {
 			return out
 		}})
 }
+
+// MARGINMAX — an overflow margin is taken over the largest modulus of the chain up to the level, not over one modulus.
+//
+// `QiOverflowMargin(level)` = floor(2^64 / max(q_0..q_level)) is how many lazily reduced terms a uint64 accumulator
+// can take for *every* residue. Computed from `qi[level]` alone it is too large whenever a lower prime is bigger
+// (LogQ = {60, 30, 30}): the accumulators of the 60-bit residue wrap.
+//
+// Rule: in every method named …OverflowMargin, the divisor of the margin mentions a range of the chain (a slice
+// expression such as `p.qi[:level+1]`, or a call of a Max function / a loop that keeps a maximum), never a single
+// indexed modulus only.
+func scanMarginMax(c *core.Ctx) []ob {
+	var out []ob
+	n := 0
+	c.FuncDecls(func(pk *packages.Package, file *ast.File, fd *ast.FuncDecl) {
+		if fd.Body == nil || !strings.HasSuffix(fd.Name.Name, "OverflowMargin") || fileIsTestSupport(c.Program, fd.Pos()) {
+			return
+		}
+		info := pk.TypesInfo
+		fkey := core.FuncKey(pk, fd)
+		n++
+		overRange, single := false, ast.Expr(nil)
+		ast.Inspect(fd.Body, func(x ast.Node) bool {
+			switch v := x.(type) {
+			case *ast.SliceExpr:
+				if _, ok := info.TypeOf(v.X).Underlying().(*types.Slice); ok {
+					overRange = true
+				}
+			case *ast.RangeStmt:
+				overRange = true
+			case *ast.CallExpr:
+				if fn := calleeFunc(info, v); fn != nil && strings.Contains(fn.Name(), "Max") {
+					overRange = true
+				}
+			case *ast.IndexExpr:
+				if sl, ok := info.TypeOf(v.X).Underlying().(*types.Slice); ok {
+					if b, ok := sl.Elem().Underlying().(*types.Basic); ok && b.Kind() == types.Uint64 {
+						single = v
+					}
+				}
+			}
+			return true
+		})
+		key := "MARGINMAX:" + fkey
+		switch {
+		case overRange:
+			out = append(out, okOb("MARGINMAX", key, c.Rel(fd.Pos()), "the margin is computed over a range of the chain", true))
+		case single != nil:
+			out = append(out, violOb("MARGINMAX", key, c.Rel(single.Pos()), fmt.Sprintf("%s computes the overflow margin from the single modulus %s: a larger prime lower in the chain overflows the lazily accumulated sums the margin is meant to bound", fkey, exprString(single))))
+		default:
+			out = append(out, infoOb("MARGINMAX", key, c.Rel(fd.Pos()), "no modulus chain is mentioned: not decided"))
+		}
+	})
+	c.Stats["marginmax_fns"] = n
+	return out
+}
+
+func init() {
+	core.Register(&core.Rule{Name: "MARGINMAX", Props: []string{"C19", "C04", "C12", "C20"},
+		Doc: "every …OverflowMargin method computes its margin over a range of the modulus chain (slice expression, Max call or loop), never from a single indexed modulus",
+		Run: func(c *core.Ctx) []ob {
+			out := scanMarginMax(c)
+			out = append(out, control(c, "MARGINMAX", scanMarginMax, "(marginParams).QOverflowMargin")...)
+			out = append(out, core.Floor("MARGINMAX", nil, "overflow margin methods", c.Stats["marginmax_fns"], 2)...)
+			return out
+		}})
+}
